@@ -1,5 +1,6 @@
 import Rtsp.Model.Session
 import Rtsp.Proofs.Sess.Step
+import Rtsp.Proofs.Sess.Ends
 /-
 C02: the five-state machine of the server, abstracted to the four states of RFC 2326 appendix A.2,
 follows the A.2 table verbatim (with the one documented deviation: PAUSE outside Playing/Recording
@@ -364,6 +365,11 @@ theorem AllOk.setMode {srv : Server} (h : AllOk srv) (c : Nat) (e : Err) : AllOk
   rw [this] at hx
   exact h x hx
 
+theorem AllOk.silence {srv : Server} (h : AllOk srv) : AllOk (silence srv) := by
+  unfold Sess.silence
+  exact foldl_inv (P := AllOk) _ (fun s ss hs => hs.endSession ss.id) _ _
+    (foldl_inv (P := AllOk) _ (fun s cn hs => hs.closeConn cn.id) _ _ h)
+
 theorem AllOk.nonRequest {srv : Server} (h : AllOk srv) (c : Nat) (b : Bool) : AllOk (nonRequest srv c b) := by
   unfold Sess.nonRequest
   split
@@ -382,7 +388,7 @@ theorem AllOk.handleRequest {srv : Server} (h : AllOk srv) (cfg : Config) (cn : 
   dsimp only
   split
   · exact AllOk.closeConn this _
-  · exact AllOk.setMode this _ _
+  · exact fun x hx => AllOk.setMode this cn.id res.err x hx
 
 theorem AllOk.stepEv {srv : Server} (h : AllOk srv) (cfg : Config) (e : Event) : AllOk (stepEv cfg srv e).1 := by
   cases e with
@@ -391,6 +397,7 @@ theorem AllOk.stepEv {srv : Server} (h : AllOk srv) (cfg : Config) (e : Event) :
   | expire sid => exact h.endSession sid
   | frame c => exact h.nonRequest c true
   | response c => exact h.nonRequest c false
+  | silence => exact h.silence
   | req c r =>
     simp only [Sess.stepEv]
     split
